@@ -39,22 +39,25 @@ Accepted subset (anything else raises TranslateError with file:line):
              inside the then-branch of `if v:`.
   statements x = e;  x += e / x -= e on ints;  x = [] (fresh list of str);  x.append(e)
              on such a list as long as it has not been aliased;  if / elif / else
-             (what follows a conditional is translated into both branches; `if v:` on a
-             None-or-int v is ExpandRt.if_truthy: the then-branch runs for an int != 0,
-             the else-branch for None and for 0);  for x in e  (e a list of str, or a
-             str: its characters; no else; e is evaluated once, before the loop);
+             (what follows a conditional is translated into both branches; `if v:` / `if not v:`
+             on a None-or-int v is ExpandRt.if_truthy: one branch runs for an int != 0,
+             the other for None and for 0);  for x in e / for i, x in enumerate(e)
+             (e a list of str, or a str: its characters; no else; e is evaluated once,
+             before the loop; i is an int);
              the generator idiom
                  g = m.next_guess()
                  while g is not None:
                      BODY                      (no continue / break, g and m not assigned)
                      g = m.next_guess()
-             which is  for g in <the strings m still returns>;  continue (in for);
+             or  `while True: g = m.next_guess(); if g is None: break; BODY`  (continue allowed),
+             which are  for g in <the strings m still returns>;  continue (in for);
              return e;  return self.f(...) / x = self.f(...) for f in SPECS (or the
              opaque _honeyword_recursive_guess);  self.print_guess(e);  a docstring;
              pass.  Skipped with a note in the generated text, because the model has no
              counterpart (status / save-file bookkeeping and stderr):
              self.omen_guess_num = / += ..., self.omen_exit = ..., print(..., file=sys.stderr),
-             m.save_session(...) on the mc.
+             m.save_session(...) on the mc, x = <expression over self.save_file> (x may then
+             only be used in a skipped statement).
   expressions names;  int, str, True, False constants (None only as an argument for a
              None-or-int parameter);  e[i] on a pt / str / list of str (Python index
              semantics, may raise);  e[0], e[1] on a node;  e[a:], e[:b], e[a:b];
@@ -62,7 +65,12 @@ Accepted subset (anything else raises TranslateError with file:line):
              e.upper() on a str;  'sep'.join(e);  [e, ...] (list of str);  + on ints,
              strs, lists of str;  - and * on ints;  unary -;  < <= > >= == != on ints;
              == != on strs;  not e, `and` / `or` on bools;  self.should_exit;
-             MarkovCracker(self.omen_grammar, level, self.omen_optimizer).
+             MarkovCracker(self.omen_grammar, level, self.omen_optimizer);
+             self.h(args) for another method h of the class (plain or @staticmethod,
+             positional parameters, no printing, no recursion, every path ends in
+             `return e`): its body is translated in place, `return e` handing e to what
+             follows the call (so a helper extracted from a translated function gives the
+             same generated term, up to beta, as the code it was extracted from).
              Sub-expressions that may raise are evaluated first, left to right
              (`bindx`), which is Python's order.
 
@@ -124,6 +132,9 @@ OPAQUE = {
 }
 # attributes of self whose stores are skipped (status / save bookkeeping, no counterpart in the model)
 GHOST_ATTRS = {"omen_guess_num", "omen_exit"}
+# attributes of self that are read only to build arguments of skipped statements (the save-file name)
+GHOST_READS = {"save_file"}
+GHOST = "not-modelled"
 
 SECTION_CONTEXT = (
     "Context (upper_c : N -> pstr).\n"
@@ -168,9 +179,12 @@ class K:
 
 
 class FunctionTranslator:
-    def __init__(self, path, rel, fn, spec, done):
+    def __init__(self, path, rel, fn, spec, done, defs=None, tree=None):
         self.path, self.rel, self.fn, self.spec = path, rel, fn, spec
         self.done = done          # py name -> spec of the functions translated before (+ opaque ones)
+        self.defs = defs or {}    # the methods of the class (helpers are inlined on demand)
+        self.tree = tree
+        self.inlining = []        # names of the helpers being inlined (no recursion)
         self.uid = 0
         self.uses_fuel = bool(spec.get("recursive"))   # set while translating when a fuelled function is called
 
@@ -247,6 +261,8 @@ class FunctionTranslator:
         if isinstance(e, ast.Name):
             if e.id not in env.types:
                 self.fail(e, "unknown variable %r (not assigned on every path to here?)" % e.id)
+            if env.types[e.id] == GHOST:
+                self.fail(e, "the not-modelled value %r is used" % e.id)
             return e.id, env.types[e.id]
         if isinstance(e, ast.Constant):
             if e.value is True:
@@ -417,7 +433,95 @@ class FunctionTranslator:
             return "str_join %s %s" % (_paren(s), _paren(v)), STR
         if self.is_self_attr(f) and (f.attr in self.done or f.attr == self.spec["py"]):
             self.fail(e, "the call of a translated method is supported as `x = self.f(...)` / `return self.f(...)` only")
+        if self.is_self_attr(f) and isinstance(self.defs.get(f.attr), ast.FunctionDef):
+            return self.inline_call(e, env, pre)
         self.fail(e, "unsupported call")
+
+    # -------------------------------------------------------------- helper methods, inlined
+    def inline_call(self, e, env, pre):
+        """self.h(args) for a method h of the class that is not one of SPECS: the body of h is
+        translated in place (continuation passing: `return v` hands v to what follows the call;
+        an exception goes to the caller's handler).  Restrictions: h takes positional
+        parameters only (plain method or @staticmethod), does not print, does not call itself
+        or a function being translated, and every path through it ends in `return e`."""
+        name = e.func.attr
+        fn = self.defs[name]
+        if name in self.inlining or name == self.fn.name:
+            self.fail(e, "recursive helper method")
+        if name in {sp["py"] for sp in SPECS} or name == "print_guess":
+            self.fail(e, "unsupported call")
+        check_not_rebound(self.tree, self.path, {name})
+        static = [d for d in fn.decorator_list if isinstance(d, ast.Name) and d.id == "staticmethod"]
+        if len(static) != len(fn.decorator_list):
+            self.fail(fn, "helper method with an unsupported decorator")
+        a = fn.args
+        if a.vararg or a.kwarg or a.kwonlyargs or a.posonlyargs or a.kw_defaults or a.defaults \
+                or any(x.annotation is not None for x in a.args) or fn.returns is not None:
+            self.fail(fn, "unsupported signature of a helper method")
+        params = [x.arg for x in a.args]
+        if not static:
+            if not params or params[0] != "self":
+                self.fail(fn, "the first parameter of a method must be self")
+            params = params[1:]
+        if e.keywords or len(e.args) != len(params) or any(isinstance(x, ast.Starred) for x in e.args):
+            self.fail(e, "a helper method is called with positional arguments only")
+        if len(set(params)) != len(params):
+            self.fail(fn, "parameters collide")
+        args = []
+        for x in e.args:
+            t, ty = self.expr(x, env, pre)
+            if ty not in (STR, INT, BOOL, NODE, PT, STRLIST):
+                self.fail(x, "argument of type %s for a helper method" % ty)
+            args.append((_paren(t), ty))
+            if isinstance(x, ast.Name):
+                env.fresh.discard(x.id)
+        if self.prints(list(fn.body)):
+            self.fail(fn, "a helper method that prints or calls a translated method is not supported")
+        kn = self.temp("k")
+        rets = []
+
+        def body_text(k, ind):
+            outer_fn, self.fn = self.fn, fn
+            self.inlining.append(name)
+            try:
+                henv = Env()
+                for n, (_, ty) in zip(params, args):
+                    self.check_name(fn, n)
+                    henv.types[n] = ty
+
+                def ret(node, text, ty):
+                    rets.append(ty)
+                    return "%s %s" % (kn, _paren(text))
+
+                def fall(_n, _e):
+                    self.fail(fn, "the helper method can end without a return statement")
+
+                hk = K(fall, lambda n, _e: self.fail(n, "continue outside a loop"), ret, k.exc)
+                return self.block(list(fn.body), henv, hk, ind)
+            finally:
+                self.inlining.pop()
+                self.fn = outer_fn
+
+        # first pass: the type of the result (the text is discarded)
+        dummy = K(None, None, None, lambda ex: "Exc %s" % ex)
+        body_text(dummy, 0)
+        if not rets or len(set(rets)) != 1 or rets[0] not in (STR, INT, BOOL, STRLIST):
+            self.fail(fn, "the helper method returns values of type(s) %r" % sorted(set(rets)))
+        ty = rets[0]
+        t = self.temp("t")
+        binders = " ".join("(%s : %s)" % (n, COQ_TYPE[pty]) for n, (_, pty) in zip(params, args))
+
+        def render(k, ind):
+            del rets[:]
+            text = self.line(ind, "((fun %s %s =>" % (binders, kn))
+            text = text.rstrip("\n") + "   (* %d: inlined %s.%s, lines %d-%d *)\n" % (
+                e.lineno, CLASS, name, fn.lineno, fn.end_lineno)
+            text += _close(body_text(k, ind + 2), ")")
+            text += self.line(ind + 1, "%s) (fun %s =>" % (" ".join(a for a, _ in args), t))
+            return text
+
+        pre.append((t, render))
+        return t, ty
 
     def method_call(self, e, env, pre):
         """self.f(...) for a translated / opaque f  ->  text of the call (a res value), or None"""
@@ -496,6 +600,9 @@ class FunctionTranslator:
                 add(t.id)
             elif isinstance(t, ast.Attribute) and self.is_self_attr(t):
                 pass          # checked where the statement is translated
+            elif isinstance(t, ast.Tuple) and all(isinstance(x, ast.Name) for x in t.elts):
+                for x in t.elts:      # accepted as the target of `for i, x in enumerate(...)` only
+                    add(x.id)
             else:
                 self.fail(t, "unsupported assignment target")
 
@@ -509,7 +616,7 @@ class FunctionTranslator:
                 target(n.target)
             elif isinstance(n, (ast.NamedExpr, ast.Delete, ast.Global, ast.Nonlocal, ast.With, ast.Import,
                                 ast.ImportFrom, ast.FunctionDef, ast.AsyncFunctionDef, ast.ClassDef, ast.Lambda,
-                                ast.ListComp, ast.SetComp, ast.DictComp, ast.GeneratorExp, ast.Try, ast.Break,
+                                ast.ListComp, ast.SetComp, ast.DictComp, ast.GeneratorExp, ast.Try,
                                 ast.Yield, ast.YieldFrom, ast.Await, ast.Raise, ast.Assert, ast.IfExp,
                                 ast.AsyncFor, ast.AsyncWith, ast.Starred)):
                 self.fail(n, "unsupported construct")
@@ -542,6 +649,9 @@ class FunctionTranslator:
         """the bindx lines of the raising sub-expressions of one statement"""
         out = ""
         for n, (t, text) in enumerate(pre):
+            if callable(text):          # an inlined helper method
+                out += text(k, ind)
+                continue
             out += self.line(ind, "bindx (%s) %s (fun %s =>" % (text, self.handler(k), t), s if n == 0 else None)
         return out
 
@@ -575,9 +685,11 @@ class FunctionTranslator:
                 self.fail(rest[0], "statement after continue")
             return self.line(ind, k.cont(s, env), s)
         if isinstance(s, ast.Assign):
-            if rest and isinstance(rest[0], ast.While):
+            if rest and isinstance(rest[0], ast.While) and self.next_guess_stmt(s) is not None:
                 return self.generator_loop(s, rest[0], rest[1:], env, k, ind)
             return self.assign(s, rest, env, k, ind)
+        if isinstance(s, ast.While):
+            return self.generator_loop(None, s, rest, env, k, ind)
         if isinstance(s, ast.AugAssign):
             return self.augassign(s, rest, env, k, ind)
         if isinstance(s, ast.Expr):
@@ -625,6 +737,14 @@ class FunctionTranslator:
         if not isinstance(t, ast.Name):
             self.fail(s, "unsupported assignment target")
         x = t.id
+        if any(self.is_self_attr(n) and n.attr in GHOST_READS for n in ast.walk(s.value)):
+            # a value built from the save-file name: not modelled; the local may only be handed to
+            # a statement that is skipped as well (m.save_session(x))
+            if x in env.types and env.types[x] != GHOST:
+                self.fail(s, "%r changes its type from %s to a not-modelled value" % (x, env.types[x]))
+            self.check_name(s, x)
+            env.types[x] = GHOST
+            return self.skipped(s, rest, env, k, ind)
         pre = []
         call = self.method_call(s.value, env, pre)
         if call is not None:
@@ -721,15 +841,21 @@ class FunctionTranslator:
         else_stmts = orelse if et else orelse + rest
         env_t, env_f = env.copy(), env.copy()
         test = s.test
-        if isinstance(test, ast.Name) and env.types.get(test.id) == OPTINT:
-            # `if v:` on None | int
-            v = test.id
-            env_t.types[v] = INT
+        negated = isinstance(test, ast.UnaryOp) and isinstance(test.op, ast.Not) \
+            and isinstance(test.operand, ast.Name) and env.types.get(test.operand.id) == OPTINT
+        if negated or (isinstance(test, ast.Name) and env.types.get(test.id) == OPTINT):
+            # `if v:` / `if not v:` on None | int: the branch for an int != 0 gets the int
+            v = test.operand.id if negated else test.id
+            truthy, falsy = (else_stmts, then_stmts) if negated else (then_stmts, else_stmts)
+            env_i, env_n = env.copy(), env.copy()
+            env_i.types[v] = INT
             out = self.line(ind, "if_truthy %s (fun %s =>" % (v, v), s)
-            out += _close(self.block(then_stmts, env_t, k, ind + 2), ")")
+            if negated:
+                out += self.line(ind + 2, "(* %d: else (%s is an int other than 0) *)" % (s.lineno, v))
+            out += _close(self.block(truthy, env_i, k, ind + 2), ")")
             out += self.line(ind + 1, "(" + " " * max(2, 66 - 2 * (ind + 1) - 1)
-                             + "(* %d: else (%s is None or 0) *)" % (s.lineno, v))
-            out += _close(self.block(else_stmts, env_f, k, ind + 2), ")")
+                             + "(* %d: %s (%s is None or 0) *)" % (s.lineno, "then" if negated else "else", v))
+            out += _close(self.block(falsy, env_n, k, ind + 2), ")")
             return out
         pre = []
         if isinstance(test, ast.Name) and env.types.get(test.id) == INT:
@@ -774,7 +900,7 @@ class FunctionTranslator:
             vals.append(self.coerce(node, n, env.types[n], entry[n]))
         return vals[0] if len(vals) == 1 else "(" + ", ".join(vals) + ")"
 
-    def loop(self, s, head, binder, body, rest, env, inner, k, ind, skip=()):
+    def loop(self, s, head, binder, body, rest, env, inner, k, ind, skip=(), prologue=None):
         names, tup, pat, entry = self.loop_state(s, body, env, skip)
         for n in names:
             if n != "printed":
@@ -787,6 +913,8 @@ class FunctionTranslator:
                    lambda n, t, ty: "Return (%s)" % k.ret(n, t, ty),
                    lambda e: "Return (%s)" % k.exc(e))
         out = self.line(ind, "%s (fun %s %s =>" % (head, binder, pat), s)
+        if prologue:
+            out += self.line(ind + 2, prologue)
         out += _close(self.block(body, inner, body_k, ind + 2), ")")
         # after the loop: the carried variables have their entry types; freshness only survives
         # if the body kept it
@@ -800,87 +928,132 @@ class FunctionTranslator:
     def for_(self, s, rest, env, k, ind):
         if s.orelse:
             self.fail(s, "for ... else")
-        if not isinstance(s.target, ast.Name):
+        it, pos = s.iter, None
+        if isinstance(it, ast.Call) and isinstance(it.func, ast.Name) and it.func.id == "enumerate":
+            # for pos, x in enumerate(e)
+            if len(it.args) != 1 or it.keywords or isinstance(it.args[0], ast.Starred):
+                self.fail(s, "enumerate is supported with one argument only")
+            if not (isinstance(s.target, ast.Tuple) and len(s.target.elts) == 2
+                    and all(isinstance(t, ast.Name) for t in s.target.elts)):
+                self.fail(s, "enumerate needs the target `pos, item`")
+            pos, x = s.target.elts[0].id, s.target.elts[1].id
+            if pos == x:
+                self.fail(s, "loop variables collide")
+            it = it.args[0]
+        elif isinstance(s.target, ast.Name):
+            x = s.target.id
+        else:
             self.fail(s, "unsupported loop target")
-        x = s.target.id
-        self.check_name(s, x)
+        loop_vars = (x,) if pos is None else (pos, x)
+        for v in loop_vars:
+            self.check_name(s, v)
         pre = []
-        l, tl = self.expr(s.iter, env, pre)        # evaluated once, before the loop
+        l, tl = self.expr(it, env, pre)        # evaluated once, before the loop
         if tl == STRLIST:
             seq = _paren(l)
         elif tl == STR:
             seq = "(chars %s)" % _paren(l)
         else:
             self.fail(s, "loop over a value of type %s" % tl)
-        if isinstance(s.iter, ast.Name) and s.iter.id in self.assigned(s.body):
+        touched = self.assigned(s.body)
+        if isinstance(it, ast.Name) and it.id in touched:
             self.fail(s, "the iterated list is assigned or mutated in the loop")
-        if x in env.types:
-            self.fail(s, "the loop variable %r is already bound" % x)
         inner = env.copy()
+        for v in loop_vars:
+            if v in env.types:
+                self.fail(s, "the loop variable %r is already bound" % v)
+            # the loop variables are per iteration; they must not be assigned in the body
+            if v in touched:
+                self.fail(s, "the loop variable is assigned in the loop")
+            inner.fresh.discard(v)
         inner.types[x] = STR
-        inner.fresh.discard(x)
-        # the loop variable itself is per iteration; it must not be assigned in the body
-        if x in self.assigned(s.body):
-            self.fail(s, "the loop variable is assigned in the loop")
         text = self.opens(pre, k, ind, s)
-        text += self.loop(s, "for_each %s" % seq, x, list(s.body), rest, env, inner, k, ind, skip=(x,))
+        if pos is None:
+            text += self.loop(s, "for_each %s" % seq, x, list(s.body), rest, env, inner, k, ind, skip=loop_vars)
+        else:
+            # the position is a Python int: KernelRt.for_enum counts in nat
+            inner.types[pos] = INT
+            text += self.loop(s, "for_enum %s" % seq, "%s'n %s" % (pos, x), list(s.body), rest, env, inner, k, ind,
+                              skip=loop_vars, prologue="let %s := Z.of_nat %s'n in" % (pos, pos))
         return self.wrap(pre, text)
 
+    @staticmethod
+    def next_guess_stmt(st):
+        """g = m.next_guess()  ->  (g, m), else None"""
+        if not (isinstance(st, ast.Assign) and len(st.targets) == 1 and isinstance(st.targets[0], ast.Name)
+                and isinstance(st.value, ast.Call) and isinstance(st.value.func, ast.Attribute)
+                and st.value.func.attr == "next_guess" and isinstance(st.value.func.value, ast.Name)
+                and not st.value.args and not st.value.keywords):
+            return None
+        return st.targets[0].id, st.value.func.value.id
+
     def generator_loop(self, a, w, rest, env, k, ind):
-        """g = m.next_guess(); while g is not None: BODY; g = m.next_guess()"""
-        def next_guess(st):
-            if not (isinstance(st, ast.Assign) and len(st.targets) == 1 and isinstance(st.targets[0], ast.Name)
-                    and isinstance(st.value, ast.Call) and isinstance(st.value.func, ast.Attribute)
-                    and st.value.func.attr == "next_guess" and isinstance(st.value.func.value, ast.Name)
-                    and not st.value.args and not st.value.keywords):
-                return None
-            return st.targets[0].id, st.value.func.value.id
-        first = next_guess(a)
-        if first is None:
-            self.fail(w, "a while loop is supported only as `g = m.next_guess(); while g is not None: ...; g = m.next_guess()`")
-        g, m = first
-        if env.types.get(m) != MC:
-            self.fail(a, "next_guess on a value that is not a MarkovCracker")
-        if g in env.types:
-            self.fail(a, "the loop variable %r is already bound" % g)
-        self.check_name(a, g)
-        t = w.test
-        if not (isinstance(t, ast.Compare) and len(t.ops) == 1 and isinstance(t.ops[0], ast.IsNot)
-                and isinstance(t.left, ast.Name) and t.left.id == g
-                and isinstance(t.comparators[0], ast.Constant) and t.comparators[0].value is None):
-            self.fail(w, "the loop test must be `%s is not None`" % g)
+        """the two ways of writing `for g in <the strings m still returns>`:
+             g = m.next_guess()                  while True:
+             while g is not None:                    g = m.next_guess()
+                 BODY                                if g is None:
+                 g = m.next_guess()                      break
+                                                     BODY
+        (a is the assignment before the loop, or None for the second form)"""
+        def is_none_test(t, g, op):
+            return (isinstance(t, ast.Compare) and len(t.ops) == 1 and isinstance(t.ops[0], op)
+                    and isinstance(t.left, ast.Name) and t.left.id == g
+                    and isinstance(t.comparators[0], ast.Constant) and t.comparators[0].value is None)
         if w.orelse:
             self.fail(w, "while ... else")
-        if not w.body or next_guess(w.body[-1]) != (g, m):
-            self.fail(w, "the last statement of the loop must be `%s = %s.next_guess()`" % (g, m))
-        body = list(w.body[:-1])
+        if a is not None:
+            first = self.next_guess_stmt(a)
+            if first is None:
+                self.fail(w, "a while loop is supported only as a loop over a MarkovCracker's next_guess()")
+            g, m = first
+            if not is_none_test(w.test, g, ast.IsNot):
+                self.fail(w, "the loop test must be `%s is not None`" % g)
+            if not w.body or self.next_guess_stmt(w.body[-1]) != (g, m):
+                self.fail(w, "the last statement of the loop must be `%s = %s.next_guess()`" % (g, m))
+            body = list(w.body[:-1])
+            may_continue = False       # `continue` would skip the fetch of the next guess
+            where = "(* %d, %d, %d: %s = %s.next_guess(); while %s is not None: ...; %s = %s.next_guess() *)" % (
+                a.lineno, w.lineno, w.body[-1].lineno, g, m, g, g, m)
+        else:
+            if not (isinstance(w.test, ast.Constant) and w.test.value is True):
+                self.fail(w, "a while loop is supported only as a loop over a MarkovCracker's next_guess()")
+            first = self.next_guess_stmt(w.body[0]) if w.body else None
+            if first is None or len(w.body) < 2:
+                self.fail(w, "`while True:` must start with `g = m.next_guess()` and `if g is None: break`")
+            g, m = first
+            t = w.body[1]
+            if not (isinstance(t, ast.If) and is_none_test(t.test, g, ast.Is) and not t.orelse
+                    and len(t.body) == 1 and isinstance(t.body[0], ast.Break)):
+                self.fail(t, "`while True:` must start with `g = m.next_guess()` and `if g is None: break`")
+            body = list(w.body[2:])
+            may_continue = True
+            where = "(* %d, %d, %d: while True: %s = %s.next_guess(); if %s is None: break; ... *)" % (
+                w.lineno, w.body[0].lineno, t.lineno, g, m, g)
+        if env.types.get(m) != MC:
+            self.fail(w, "next_guess on a value that is not a MarkovCracker")
+        if g in env.types:
+            self.fail(w, "the loop variable %r is already bound" % g)
+        self.check_name(w, g)
         for st in body:
             for n in ast.walk(st):
-                if isinstance(n, (ast.Continue, ast.Break, ast.While)):
+                if isinstance(n, (ast.Break, ast.While)) or (isinstance(n, ast.Continue) and not may_continue):
                     self.fail(n, "continue / break / while inside the generator loop")
-        touched = self.assigned(body)
-        if g in touched:
+        if g in self.assigned(body):
             self.fail(w, "the loop variable is assigned in the loop")
         # the generator object may only be used as m.save_session(...) inside the body
         for st in body:
-            for n in ast.walk(st):
-                if isinstance(n, ast.Call) and isinstance(n.func, ast.Attribute) and isinstance(n.func.value, ast.Name) \
-                        and n.func.value.id == m and n.func.attr != "save_session":
-                    self.fail(n, "the generator object is used inside the loop")
-        for st in body:
             names = [n for n in ast.walk(st) if isinstance(n, ast.Name) and n.id == m]
             calls = [n for n in ast.walk(st) if isinstance(n, ast.Call) and isinstance(n.func, ast.Attribute)
-                     and isinstance(n.func.value, ast.Name) and n.func.value.id == m]
+                     and isinstance(n.func.value, ast.Name) and n.func.value.id == m
+                     and n.func.attr == "save_session"]
             if len(names) != len(calls):
                 self.fail(st, "the generator object is used inside the loop")
         inner = env.copy()
         inner.types[g] = STR
-        head = "for_each %s" % m
-        text = self.line(ind, "(* %d, %d, %d: %s = %s.next_guess(); while %s is not None: ...; %s = %s.next_guess() *)"
-                         % (a.lineno, w.lineno, w.body[-1].lineno, g, m, g, g, m))
+        text = self.line(ind, where)
         # after the loop the generator is exhausted and g is None: neither may be used
         del env.types[m]
-        return text + self.loop(w, head, g, body, rest, env, inner, k, ind, skip=(g, m))
+        return text + self.loop(w, "for_each %s" % m, g, body, rest, env, inner, k, ind, skip=(g, m))
 
     # -------------------------------------------------------------- function
     def translate(self):
@@ -922,6 +1095,27 @@ class FunctionTranslator:
         return out, sha
 
 
+def check_not_rebound(tree, path, names):
+    """a rebinding of one of the names inside this file (assignment in the class body or at module
+    level, `self.f = ...`, setattr) would make the translated def not the one that runs; patches
+    from other modules are out of the translator's sight"""
+    for n in ast.walk(tree):
+        if isinstance(n, (ast.Assign, ast.AugAssign, ast.AnnAssign, ast.Delete)):
+            targets = n.targets if isinstance(n, (ast.Assign, ast.Delete)) else [n.target]
+            # the one accepted rebinding: save_to_file switches the output sink from stdout to the
+            # output file (self.print_guess = self.write_guess_to_file); print_guess stays "the output effect"
+            if isinstance(n, ast.Assign) and len(targets) == 1 and ast.unparse(targets[0]) == "self.print_guess" \
+                    and ast.unparse(n.value) == "self.write_guess_to_file":
+                continue
+            for t in targets:
+                for m in ast.walk(t):
+                    if (isinstance(m, ast.Name) and m.id in names) or \
+                            (isinstance(m, ast.Attribute) and m.attr in names):
+                        raise TranslateError("%s:%d: %s is rebound" % (path, n.lineno, ast.unparse(t)))
+        if isinstance(n, ast.Name) and n.id in ("setattr", "delattr", "__dict__"):
+            raise TranslateError("%s:%d: %s is used in the module" % (path, n.lineno, n.id))
+
+
 def render(repo=None):
     """-> text of gen/Expand_gen.v for the sources of the current working tree"""
     repo = repo or common.REPO
@@ -938,24 +1132,9 @@ def render(repo=None):
             if n.name in defs:
                 raise TranslateError("%s:%d: %s defined twice" % (path, n.lineno, n.name))
             defs[n.name] = n
-    # a rebinding of one of the names inside this file would make the translated def not the one
-    # that runs; patches from other modules are out of the translator's sight
     names = {s["py"] for s in SPECS} | set(OPAQUE) | {"print_guess", "MarkovCracker"}
+    check_not_rebound(tree, path, names)
     for n in ast.walk(tree):
-        if isinstance(n, (ast.Assign, ast.AugAssign, ast.AnnAssign, ast.Delete)):
-            targets = n.targets if isinstance(n, (ast.Assign, ast.Delete)) else [n.target]
-            # the one accepted rebinding: save_to_file switches the output sink from stdout to the
-            # output file (self.print_guess = self.write_guess_to_file); print_guess stays "the output effect"
-            if isinstance(n, ast.Assign) and len(targets) == 1 and ast.unparse(targets[0]) == "self.print_guess" \
-                    and ast.unparse(n.value) == "self.write_guess_to_file":
-                continue
-            for t in targets:
-                for m in ast.walk(t):
-                    if (isinstance(m, ast.Name) and m.id in names) or \
-                            (isinstance(m, ast.Attribute) and m.attr in names):
-                        raise TranslateError("%s:%d: %s is rebound" % (path, n.lineno, ast.unparse(t)))
-        if isinstance(n, ast.Name) and n.id in ("setattr", "delattr", "__dict__"):
-            raise TranslateError("%s:%d: %s is used in the module" % (path, n.lineno, n.id))
         if isinstance(n, (ast.FunctionDef, ast.AsyncFunctionDef, ast.ClassDef)) and n.name == "MarkovCracker":
             raise TranslateError("%s:%d: MarkovCracker is redefined" % (path, n.lineno))
     imports = [n for n in tree.body if isinstance(n, ast.ImportFrom)
@@ -972,7 +1151,7 @@ def render(repo=None):
         fn = defs.get(spec["py"])
         if not isinstance(fn, ast.FunctionDef):
             raise TranslateError("%s: %s.%s not found" % (path, CLASS, spec["py"]))
-        text, sha = FunctionTranslator(path, SOURCE, fn, spec, done).translate()
+        text, sha = FunctionTranslator(path, SOURCE, fn, spec, done, defs, tree).translate()
         parts.append(text)
         done[spec["py"]] = spec
     head = (
